@@ -1,7 +1,7 @@
 """C10 on the four real transports: a real ApplicationSession attached to a real WebSocket / RawSocket client protocol (this
 process's framework) against the scripted router; every endpoint behaviour must produce exactly one terminal reply on the wire.
 
-input: {cases: [[kind, ser, beh, async_, rp, variant], ...]}
+input: {cases: [[kind, ser, beh, async_, rp, variant, keyed], ...]}   keyed: the invocation arrives end-to-end encrypted (cryptobox)
 """
 import os
 
@@ -57,12 +57,27 @@ def fitting(sername, total):
     raise RuntimeError("no string result fits %d octets exactly (%s)" % (total, sername))
 
 
-def one(kind, sername, beh, is_async, rp, var=0):
+def when():
+    """a value the CBOR transport carries but the JSON inside a crypto box does not"""
+    import datetime
+    return datetime.datetime(2021, 3, 4, 5, 6, 7, tzinfo=datetime.timezone.utc)
+
+
+def one(kind, sername, beh, is_async, rp, var=0, keyed=False):
     obs = dict(esc="", replies=[], alive=False, calls=0, userErrors=0, valuesOk=True, why="")
     expect = {}
     try:
         sess = Sess(ComponentConfig(realm="realm1"))
         sess.errors = []
+        router_kr = None
+        if keyed:
+            from autobahn.wamp.cryptobox import Key, KeyRing
+            from autobahn.wamp.types import EncodedPayload
+            a_priv, _ = KeyRing().generate_key()
+            b_priv, _ = KeyRing().generate_key()
+            sess.set_payload_codec(KeyRing(default_key=Key(originator_priv=a_priv, responder_priv=b_priv)))
+            router_kr = KeyRing(default_key=Key(originator_priv=a_priv, responder_priv=b_priv))       # the caller's end, played by the router
+        unenc = keyed and sername == "cbor" and var % 2 == 1
         if kind == "ws":
             f = WampWebSocketClientFactory(lambda: sess, url="ws://localhost:9000/ws", serializers=[SER[sername]()])
             f.setProtocolOptions(maxMessagePayloadSize=4096)
@@ -84,7 +99,7 @@ def one(kind, sername, beh, is_async, rp, var=0):
 
         def finish(details=None):
             if beh == "value":
-                if var % 2:
+                if var % 2 and not keyed:
                     v = fitting(sername, LIMIT)          # exactly as long as the peer accepts: not too long
                     expect["ret"] = ([v], {})
                     return v
@@ -97,10 +112,12 @@ def one(kind, sername, beh, is_async, rp, var=0):
                 expect["ret"] = ([None], {})
                 return None
             if beh == "unserializable":
-                return Unserializable()
+                return CallResult(1, when=when()) if unenc else Unserializable()      # (cannot be encrypted: same duty, an ERROR)
             if beh == "oversize":
-                return fitting(sername, LIMIT + 1) if var % 2 else "x" * 20000
+                return fitting(sername, LIMIT + 1) if (var % 2 and not keyed) else "x" * 20000
             if beh == "apperror":
+                if unenc:
+                    raise ApplicationError("com.myapp.error1", "bad", when=when())     # an error that cannot be encrypted: still an ERROR
                 expect["err"] = ("com.myapp.error1", ["bad"], {"x": 1})
                 raise ApplicationError("com.myapp.error1", "bad", x=1)
             if beh == "bigerror":
@@ -128,7 +145,12 @@ def one(kind, sername, beh, is_async, rp, var=0):
         conn.send(message.Registered(reg[0].request, 555))
         fw.settle()
         conn.poll()
-        conn.send(message.Invocation(9001, 555, args=[1, "two"], kwargs={"k": 3}, receive_progress=bool(rp)))
+        if keyed:
+            ep_ = router_kr.encode(True, "com.myapp.proc1", [1, "two"], {"k": 3})
+            conn.send(message.Invocation(9001, 555, payload=ep_.payload, enc_algo=ep_.enc_algo, enc_serializer=ep_.enc_serializer, enc_key=ep_.enc_key,
+                                         receive_progress=bool(rp)))
+        else:
+            conn.send(message.Invocation(9001, 555, args=[1, "two"], kwargs={"k": 3}, receive_progress=bool(rp)))
         fw.settle()
         if is_async and "f" in pending:
             try:
@@ -139,6 +161,16 @@ def one(kind, sername, beh, is_async, rp, var=0):
             fw.settle()
         for _ in range(3):
             for m in conn.poll():
+                if keyed and isinstance(m, (message.Yield, message.Error)):
+                    # the caller's end: application payloads come back encrypted, never in clear
+                    if m.payload is not None:
+                        try:
+                            _, m.args, m.kwargs = router_kr.decode(True, "com.myapp.proc1" if isinstance(m, message.Yield) else m.error,
+                                                                   EncodedPayload(m.payload, m.enc_algo, m.enc_serializer, m.enc_key))
+                        except Exception as e:  # noqa
+                            obs["valuesOk"], obs["why"] = False, "reply cannot be decrypted by the caller: %s" % type(e).__name__
+                    elif isinstance(m, message.Yield) or not (m.error or "").startswith("wamp.error."):
+                        obs["valuesOk"], obs["why"] = False, "application payload in clear in reply to an encrypted invocation"
                 if isinstance(m, message.Yield) and not m.progress and "ret" in expect:
                     if (list(m.args or []), dict(m.kwargs or {})) != expect["ret"]:
                         obs["valuesOk"], obs["why"] = False, ("YIELD carried %r %r, endpoint returned %r" % (m.args, m.kwargs, expect["ret"]))[:200]
@@ -163,7 +195,7 @@ def one(kind, sername, beh, is_async, rp, var=0):
         import traceback
         obs["esc"] = type(e).__name__ + ":" + str(e)[:80] + "|" + traceback.format_exc()[-300:]
     fw.reset()
-    return dict(ev="inv", kind=kind, ser=sername, beh=beh, isAsync=bool(is_async), rp=bool(rp), var=var, req=9001, obs=obs)
+    return dict(ev="inv", kind=kind, ser=sername, beh=beh, isAsync=bool(is_async), rp=bool(rp), var=var, keyed=bool(keyed), req=9001, obs=obs)
 
 
 class LifeSess(ApplicationSession):
